@@ -14,6 +14,7 @@ use crate::{
 };
 use emit_batcher::BatchError;
 use futures_util::{stream::FuturesUnordered, StreamExt};
+#[cfg(not(emit_rs_emit_verif))]
 use std::{
     collections::HashMap,
     future::Future,
@@ -22,6 +23,12 @@ use std::{
     thread,
     time::{Duration, Instant},
 };
+
+#[cfg(emit_rs_emit_verif)]
+use std::{collections::HashMap, future::Future, pin::Pin, sync::Arc, thread, time::Duration};
+
+#[cfg(emit_rs_emit_verif)]
+use emit_batcher::verif::{tokio_shim as tokio, Instant};
 
 use self::http::HttpConnection;
 
@@ -291,6 +298,25 @@ impl OtlpBuilder {
             // This ensures one signal becoming unavailable doesn't
             // block the others
             let _ = processors.into_future().await;
+        };
+
+        // Under simulation the worker runs on a simulated thread with a simulated executor
+        #[cfg(emit_rs_emit_verif)]
+        let receive = match emit_batcher::verif::current() {
+            Some(hooks) => {
+                let handle = hooks
+                    .spawn_worker("emit_otlp_worker".into(), Box::pin(receive))
+                    .map_err(|e| Error::new("failed to spawn background worker", e))?;
+
+                return Ok(OtlpInner {
+                    otlp_logs,
+                    otlp_traces,
+                    otlp_metrics,
+                    metrics,
+                    _handle: handle,
+                });
+            }
+            None => receive,
         };
 
         // Spawn a background thread to process batches
